@@ -232,6 +232,24 @@ static void run(Src &s) {
   read_and_compare(path, t0, f, m, "F");
   read_and_compare(path, t1, f, m, "F with inserted comment lines");
   read_and_compare(path, t2, f, m, "F with its comment lines deleted");
+  if (s.chance(20)) {
+    // reload: the layered read (default directories, vendor directory = scratch) through a NULL handle, then once
+    // more through the object the first read handed back - the comment lines are as inert the second time
+    g_case.tag("reload_through_result_object");
+    write_file(g_scr.dir + "/vfcr5.conf", t1);
+    econf_file *kf = nullptr;
+    std::string k1, k2;
+    for (int round = 0; round < 2; round++) {
+      econf_err e = econf_readConfig(&kf, nullptr, g_scr.dir.c_str(), "vfcr5", "conf", f.D.c_str(), f.C.c_str());
+      if (e != ECONF_SUCCESS) {
+        if (kf) econf_freeFile(kf);
+        VF_FAIL("read-failed", (round ? "second read through the result object of the first" : "layered read") << ": rc=" << e << " (" << econf_errString(e) << ")\nfile='" << esc(t1) << "'");
+      }
+      (round ? k2 : k1) = kv_text(observe(kf));
+    }
+    econf_freeFile(kf);
+    VF_CHECK(k1 == k2, "kv-changed", "reading F+ins a second time through the object of the first read changed the configuration\nfirst:\n" << esc(k1) << "\nsecond:\n" << esc(k2));
+  }
 }
 
 int main(int argc, char **argv) {
